@@ -572,6 +572,17 @@ class SpecCtx:
                 if a0[0] == "id" and getattr(self, "token_obj", None) is not None:
                     return self.eng.token_value(self, self.token_obj[0], a0[1])
                 raise SpecError("holds(x.token) expected")
+            if n == "now":          # now(i): the value of the i-th time.Now() of this activation
+                vals = st.ghost.get("now_values") or []
+                i = args[0][1] if args and args[0][0] == "num" else 0
+                if i >= len(vals):
+                    raise SpecError("now(%d): time.Now() was called %d time(s) on this path" % (i, len(vals)))
+                return vals[i]
+            if n == "unixnano":     # unixnano(t): t.UnixNano() (same uninterpreted function as the model of (time.Time).UnixNano)
+                tv = self.eval(args[0])
+                ls = leaves(tv)
+                r = uf("time.UnixNano", [x.sort() for x in ls], z3.IntSort())(*ls)
+                return r
             if n == "ismethod":     # ismethod(f, recv, M): f is the method value recv.M
                 fv = self.eval(args[0])
                 rv = self.eval(args[1])
